@@ -130,21 +130,16 @@ func (t *Queue[T]) Shutdown(optionalShutdownFlags ...ShutdownFlag) {
 	t.ctxCancel()
 
 	t.heapMutex.Lock()
-	switch queuedElementsCount := len(t.heap); queuedElementsCount {
-	// if the queue is empty ...
-	case 0:
-		// ... stop waiting for new elements
-		t.waitCond.Broadcast()
-
-	// if the queue is not empty ...
-	default:
-		// ... empty it if the corresponding flag was set
-		if t.shutdownFlags.HasBits(CancelPendingElements) {
-			for range queuedElementsCount {
-				heap.Pop(&t.heap)
-			}
+	// empty the queue if the corresponding flag was set
+	if t.shutdownFlags.HasBits(CancelPendingElements) {
+		for range len(t.heap) {
+			heap.Pop(&t.heap)
 		}
 	}
+
+	// wake up all goroutines that wait for new elements (even if the queue is not empty: an element that was just
+	// added only signals a single waiting goroutine, all others would otherwise wait forever)
+	t.waitCond.Broadcast()
 	t.heapMutex.Unlock()
 }
 
